@@ -101,6 +101,8 @@ def families(tier, seed):
         for eb in ("id", "fourier", "generic"):
             mu.append({"d": d, "eigenbasis": eb, "spec": "full" if tier == "quick" else "dense"})
     fams.append(("matrix_util", mu))
+    fams.append(("history", [{"kind": k, "tag": t} for k in ("state", "povm", "gate", "mprocess") for t in ("Q1", "Q3")]))
+    fams.append(("tiny_outcome", [{"tag": t} for t in ("Q1", "Q3")]))
     return fams
 
 
@@ -109,6 +111,12 @@ def execute(family, params, seed):
         return ex_origin_zero(params, seed)
     if family == "matrix_util":
         return ex_matrix_util(params, seed)
+    if family == "history":
+        from mc.props import _c01_history as H
+        return H.ex_history(params, seed)
+    if family == "tiny_outcome":
+        from mc.props import _c01_history as H
+        return H.ex_tiny(params, seed)
     typ = {"state": "State", "povm": "Povm", "gate": "Gate", "mprocess": "MProcess"}[family]
     return ex_verdicts(typ, params, seed)
 
